@@ -38,6 +38,8 @@ pub struct Profile {
     pub main_args: usize,
     pub cns_fields: bool,
     pub poly: bool,
+    /// long type / constructor / destructor names (printed types wider than any layout width)
+    pub long_names: bool,
 }
 
 impl Profile {
@@ -62,12 +64,13 @@ impl Profile {
             main_args: rng.below(6),
             cns_fields: rng.chance(1, 5),
             poly: rng.chance(3, 4),
+            long_names: rng.chance(1, 8),
         }
     }
     pub fn describe(&self) -> String {
         format!(
-            "naming={:?} effects={:?} data={} codata={} defs={} budget={} many_params={} big={} control={} prints={} boundary={} main_args={} cns_fields={} poly={}",
-            self.naming, self.effects, self.n_data, self.n_codata, self.n_defs, self.budget, self.many_params, self.big_xtors, self.control, self.prints, self.boundary_lits, self.main_args, self.cns_fields, self.poly
+            "naming={:?} effects={:?} data={} codata={} defs={} budget={} many_params={} big={} control={} prints={} boundary={} main_args={} cns_fields={} poly={} long_names={}",
+            self.naming, self.effects, self.n_data, self.n_codata, self.n_defs, self.budget, self.many_params, self.big_xtors, self.control, self.prints, self.boundary_lits, self.main_args, self.cns_fields, self.poly, self.long_names
         )
     }
 }
@@ -166,6 +169,12 @@ impl<'r> Gen<'r> {
                     break cand;
                 }
             };
+            let name = if self.prof.long_names && self.rng.chance(3, 4) {
+                let n = 8 + self.rng.below(45);
+                format!("{name}_{}", "abcdefghijklmnopqrstuvwxyz0123456789".chars().cycle().skip(self.rng.below(26)).take(n).collect::<String>())
+            } else {
+                name
+            };
             used_types.insert(name.clone());
             let nparams = if self.prof.poly { [0, 1, 1, 2][self.rng.below(4)] } else { 0 };
             let params: Vec<String> = ["A", "B"][..nparams].iter().map(|s| s.to_string()).collect();
@@ -186,6 +195,12 @@ impl<'r> Gen<'r> {
                     if !set.contains(&cand) && !KEYWORDS.contains(&cand.as_str()) && !used_types.contains(&cand) {
                         break cand;
                     }
+                };
+                let xname = if self.prof.long_names && self.rng.chance(1, 3) {
+                    let n = 8 + self.rng.below(40);
+                    format!("{xname}_{}", "zyxwvutsrqponmlkjihgfedcba".chars().cycle().skip(self.rng.below(26)).take(n).collect::<String>())
+                } else {
+                    xname
                 };
                 if is_data { used_ctors.insert(xname.clone()); } else { used_dtors.insert(xname.clone()); }
                 let base = is_data && xi == 0;
@@ -236,7 +251,8 @@ impl<'r> Gen<'r> {
             self.pool.push(Ty::Inst(i));
         }
         // second round: a few nested instances
-        for _ in 0..self.rng.below(3) {
+        let rounds = if self.prof.long_names { 2 + self.rng.below(4) } else { self.rng.below(3) };
+        for _ in 0..rounds {
             let t = self.rng.below(nt);
             let np = self.p.templates[t].params.len();
             if np == 0 {
